@@ -41,6 +41,18 @@ GROUPS = [
     ["measured.si.Newton", "measured.us.PoundForce",
      "(measured.si.Kilogram * measured.si.Meter / measured.si.Second ** 2)"],
 ]
+RECIPROCAL = [
+    ("(measured.si.Mega * measured.si.Hertz)", "(measured.si.Milli * measured.si.Second)"),
+    ("(measured.si.Kilo * measured.si.Hertz)", "(measured.si.Milli * measured.si.Second)"),
+    ("(measured.si.Kilo * measured.si.Meter)", "(measured.si.Meter ** -1)"),
+    ("(measured.si.Meter ** -1)", "(measured.si.Milli * measured.si.Meter)"),
+    ("measured.iec.Byte", "(measured.iec.Bit ** -1)"),
+    ("(measured.iec.Kibi * measured.iec.Byte)", "(measured.si.Kilo * measured.iec.Bit ** -1)"),
+    ("(measured.si.Kilo * measured.si.Meter)", "(measured.si.Kilo * measured.si.Meter)"),
+    ("(measured.si.Kilo * measured.si.Meter)", "(measured.si.Kilo * measured.si.Second)"),
+    ("(measured.iec.Kibi * measured.iec.Byte)", "(measured.iec.Kibi * measured.iec.Byte)"),
+    ("(measured.si.Milli * measured.si.Second)", "(measured.si.Milli * measured.si.Second ** -1)"),
+]
 POWERS = [-3, -2, -1, 0, 1, 2, 3]
 
 
@@ -293,6 +305,8 @@ def tasks_for(tier: str) -> List[Tuple]:
             items.append((g1[0], g2[2 % len(g2)], False))
     if tier == "quick":
         items = items[::2]
+    # products / quotients in which every factor cancels while the prefixes do not
+    items += [(u, v, False) for u, v in RECIPROCAL]
     return [ch for ch in par.chunks(items, 32)]
 
 
